@@ -13,7 +13,11 @@ META = dict(
                 "sendMessage, extractOutgoingMessage) runs in a synctest bubble with its message builder gated, under "
                 "TLC-sampled and counterexample-derived schedules, under a class-stratified sample of the exhaustively "
                 "enumerated histories in which requests of different kinds meet on one CID (with and without HAVE support, "
-                "closed by cancels) and under 2-3 concurrent producer goroutines; every producer call, gate passage, "
+                "closed by cancels), under the exhaustively enumerated 'burst' histories (calls about 2-4 CIDs at once under "
+                "limits of 1-3 entries, so that wants / cancels do not fit into one message, followed by silence: only the "
+                "loop's re-signal after a send can deliver the rest; stratified by which backlog the model's Count step found) "
+                "and under 2-3 concurrent producer goroutines (each run closed by a cancel of everything and a quiet tail); "
+                "every producer call, gate passage, "
                 "emptiness test, sent message and idle point -- the last two together with the queue's pending/sent/cancel "
                 "lists -- is validated by TLC against the spec, with the property evaluated at every step."),
     level_note=("Trusted: testing/synctest, the fake sender/network, go-cid; harness projection (CID numbering, "
@@ -65,6 +69,8 @@ def mix_tags(sc):
     the peer want-haves the no-HAVE filter dropped.  p1/p2 = peer want-have/-block, b = broadcast want-have."""
     tags = set()
     for s in sc["steps"]:
+        if s["op"] == "N":          # (a Count label, see burst_tags)
+            continue
         rows = s.get("st") or []
         st = {r[0]: r for r in rows}
         o = s["op"]
@@ -109,11 +115,34 @@ def mix_tags(sc):
     return {("have:" if sc["sh"] else "nohave:") + t for t in tags}
 
 
-def class_cover(scs, k, rng):
+def burst_tags(sc):
+    """Classes of a schedule of the Burst family, from the MODEL's "N" labels (one per Count that re-signals):
+    which backlog (b = pending broadcast wants, p = pending peer wants, c = queued cancels) the cycle left behind
+    under which limit, and whether the run is quiet from there to the next Idle (no producer call in between: only
+    the loop's own re-signal can then deliver the rest)."""
+    tags = set()
+    steps = sc["steps"]
+    for i, s in enumerate(steps):
+        if s["op"] != "N":
+            continue
+        nb, np_, nc, mx = s["st"]
+        quiet = True
+        for later in steps[i + 1:]:
+            if later["op"] == "I":
+                break
+            if later["op"] in ("bcst", "wants", "cancels", "rb"):
+                quiet = False
+                break
+        tags.add("max%d:backlog:%s%s" % (mx, "+".join(n for n, x in (("b", nb), ("p", np_), ("c", nc)) if x),
+                                         ":quiet" if quiet else ":busy"))
+    return {("have:" if sc["sh"] else "nohave:") + t for t in tags}
+
+
+def class_cover(scs, k, rng, tagger=None):
     """greedy set cover: every class of the family is replayed at least k times (or as often as it exists)"""
     idx = list(range(len(scs)))
     rng.shuffle(idx)
-    tg = {i: mix_tags(scs[i]) for i in idx}
+    tg = {i: (tagger or mix_tags)(scs[i]) for i in idx}
     total = collections.Counter(t for i in idx for t in tg[i])
     have = collections.Counter()
     chosen = []
@@ -161,6 +190,36 @@ def recorded_classes(recs):
                         seen.add(pre + "cancel-after-mix")
                     kinds[c] = []
     return dict(events=dict(sorted(cnt.items())), runs=dict(sorted(runs.items())))
+
+
+def recorded_backlogs(recs):
+    """What the RECORDED runs contain, from the tracking lists logged with every Send (read under wllock inside
+    SendMsg, i.e. after the second critical section): sends under a size limit that leave a backlog (b / p / c as in
+    burst_tags), and whether the run's next event other than the loop's own is the Idle (quiet) -- then only
+    sendMessage's re-signal can have delivered the rest."""
+    cnt = collections.Counter()
+    maxn = 0
+    for i, r in enumerate(recs):
+        if r["ev"] == "Reset":
+            maxn = r.get("maxN", 0)
+        elif r["ev"] == "Send" and maxn:
+            rows = r.get("st") or []
+            nb = sum(1 for x in rows if x[4])
+            np_ = sum(1 for x in rows if x[3])
+            nc = sum(1 for x in rows if x[5])
+            if not (nb or np_ or nc):
+                continue
+            quiet = None
+            for later in recs[i + 1:]:
+                if later["ev"] in ("Idle", "Reset"):
+                    quiet = later["ev"] == "Idle"
+                    break
+                if later["ev"] in ("Invoke", "Return", "RbInvoke", "RbReturn"):
+                    quiet = False
+                    break
+            cnt["backlog:%s%s" % ("+".join(n for n, x in (("b", nb), ("p", np_), ("c", nc)) if x),
+                                  ":quiet" if quiet else ":busy")] += 1
+    return dict(sorted(cnt.items()))
 
 
 def validate(ctx, recs, name, negative=None, timeout=1500):
@@ -299,8 +358,36 @@ def run(ctx):
 def phase_gt(ctx):
     """generators, build, replay (G) and concurrent recording (T); returns the two recorded traces"""
     # ---- G: schedules.  (a) the Mix family: exhaustive BFS, classified by the model, class-stratified sample
+    # (c) the Burst family (same module, Family = "burst"): more requests than fit into one message, then silence;
+    #     generated beside the Mix family
+    burst_box = {}
+
+    def gen_burst():
+        try:
+            burst_box["all"] = ctx.tlc_gen(SPEC, "GenBitswapMQMix.tla",
+                                           "GenBitswapMQBurst.cfg" if ctx.quick else "GenBitswapMQBurst4.cfg",
+                                           timeout=1500, workers=2 if ctx.quick else 4)
+        except Exception as e:      # noqa: BLE001
+            ctx.broken("Burst generator died: %r" % (e,))
+    th_b = threading.Thread(target=gen_burst)
+    th_b.start()
     mix_all = ctx.tlc_gen(SPEC, "GenBitswapMQMix.tla", "GenBitswapMQMix.cfg" if ctx.quick else "GenBitswapMQMix3.cfg",
                           timeout=1500, workers=1 if ctx.quick else 4)
+    th_b.join()
+    burst_all = burst_box.get("all")
+    if not burst_all:
+        if not ctx.brokens:
+            ctx.broken("Burst family generated no schedules")
+        return None, None
+    burst, btotal, bhave = class_cover(burst_all, 1 if ctx.quick else 3, ctx.rng, tagger=burst_tags)
+    bneed = ["%s:max%d:backlog:%s:quiet" % (h, 1, k) for h in ("have", "nohave") for k in ("c", "p", "b")]
+    bneed += ["%s:max2:backlog:c:quiet" % h for h in ("have", "nohave")]
+    bneed = [c for c in bneed if not bhave[c]]
+    if bneed:
+        ctx.broken("Burst family does not reach the classes %s (vacuous)" % bneed)
+        return None, None
+    ctx.log("G Burst family: %d schedules enumerated, %d classes, %d schedules replayed" %
+            (len(burst_all), len(btotal), len(burst)))
     if not ctx.quick:
         mix_all += ctx.tlc_gen(SPEC, "GenBitswapMQMix.tla", "GenBitswapMQMixW.cfg", timeout=1500, workers=4)
     if not mix_all:
@@ -321,10 +408,10 @@ def phase_gt(ctx):
                          depth=31 * (6 if ctx.quick else 12) + 1, timeout=1500)
     if not scheds:
         return None, None
-    scheds = DIRECTED + mix + scheds
-    for sc in scheds:            # (the model's annotations are for the runner only)
-        for st in sc["steps"]:
-            st.pop("st", None)
+    scheds = DIRECTED + mix + burst + scheds
+    # (the model's annotations are for the runner only: "N" labels are not steps, st is dropped)
+    scheds = [dict(sc, steps=[{k: v for k, v in st.items() if k != "st"} for st in sc["steps"] if st["op"] != "N"])
+              for sc in scheds]
     binp = ctx.go_build(PKG, [PKG + "/zz_verif_C35_test.go"])
     inp = ctx.write_ndjson("schedules.ndjson", scheds)
     recsG, out, rc = ctx.go_run(binp, "TestVerifC35", pkg=PKG, infile=inp, mode="replay", timeout=900)
@@ -365,7 +452,19 @@ def phase_gt(ctx):
               "cancel, per run, from the Invoke events"),
         mix_family_enumerated=dict(sorted(total.items())),
         mix_family_replayed=dict(sorted((c, have[c]) for c in total)),
-        replayed_schedules=covG, concurrent_runs=covT)
+        burst_family_enumerated=dict(sorted(btotal.items())),
+        burst_family_replayed=dict(sorted((c, bhave[c]) for c in btotal)),
+        replayed_schedules=covG, concurrent_runs=covT,
+        backlog_after_send=dict(rule="Send events under a size limit whose logged lists still hold pending wants (b/p) or "
+                                     "queued cancels (c); quiet = nothing but the loop runs until the next Idle",
+                                replayed_schedules=recorded_backlogs(recsG), concurrent_runs=recorded_backlogs(recsT)))
+    blG, blT = recorded_backlogs(recsG), recorded_backlogs(recsT)
+    ctx.log("backlog after a size-limited send: replayed %s | concurrent %s" % (blG, blT))
+    for c in ("backlog:c:quiet", "backlog:p:quiet", "backlog:b:quiet"):
+        if not blG.get(c):
+            ctx.broken("no replayed schedule with a size-limited send leaving only %s before an Idle (vacuous)" % c)
+    if not blT.get("backlog:c:quiet"):
+        ctx.broken("no concurrent run with a size-limited send leaving only queued cancels before an Idle (vacuous)")
     ctx.log("class coverage (runs): replayed %s | concurrent %s" % (covG["runs"], covT["runs"]))
     for nm, cv in (("replayed schedules", covG), ("concurrent runs", covT)):
         for c in ("nohave:cancel-after-mix", "have:cancel-after-mix"):
